@@ -119,6 +119,11 @@ def parse_duration(s):
 def parse_date(s):
     # return seconds-since-epoch for the UTC midnight that starts the given
     # day
+    m = re.match(r"^([0-9]{4})-([0-9]{2})-([0-9]{2})\Z", s)
+    if not m:
+        raise ValueError(s, "not a date of the form YYYY-MM-DD")
+    # raises ValueError for days and months that do not exist
+    datetime.date(int(m.group(1)), int(m.group(2)), int(m.group(3)))
     return int(iso_utc_time_to_seconds(s + "T00:00:00"))
 
 def format_delta(time_1, time_2):
